@@ -7,13 +7,15 @@
      OAcq b         Acquire as one tryAcquire against EVERYTHING the semaphore holds (core +
                     pending + leaked); refused once quit is closed (Terminate);
      OQueue id      the queueing succeeds: the batch becomes a core SEnq (its share moves from
-                    [opend] to the core's [held]); after Stop() has returned the task is queued
-                    for workers that no longer exist: the share stays held for ever ([ostuck]);
+                    [opend] to the core's [held]); once Stop() has begun the task is queued for
+                    workers that are leaving: the model counts it as never handled, its share stays
+                    held for ever ([ostuck]) (if a worker does pick it up, that run is the one in
+                    which the batch was queued just before quit);
      OQueueFail id  (only after OQuit) errTerminated: the batch is refused;
                     repaired code (fixes/C15.patch): the share is released;
                     code as found ([fixedq = false]): the share stays acquired ([oleak]);
-     OQuit          close(quit) + semaphore.Terminate(): Stop() has begun; the workers may still
-                    make core moves (SConsume/SArrive) until OCore SStop;
+     OQuit          = OCore SQuit: close(quit) + semaphore.Terminate(); the workers may still make core
+                    moves (SConsume/SArrive/SAbort) until OCore SStop;
      OCore x        a step of the core machine (SEnq b = OAcq b; OQueue (b_id b) without anything
                     in between; its Acquire is checked against the full semaphore here).
    [otrace] is ghost: the core steps taken so far (newest first); the core state is exactly the
@@ -54,7 +56,7 @@ Section O.
 
   Definition core_step (o : ost) (x : pstep) : ost :=
     mkOst (pstep_run fc fp cap_n cap_s lim_n lim_s (ocore o) x) (opend o)
-          (match x with SStop => true | _ => oquit o end)
+          (match x with SStop | SQuit => true | _ => oquit o end)
           (ostuck_n o) (ostuck_s o) (oleak_n o) (oleak_s o) (x :: otrace o).
 
   Definition fits (o : ost) (b : batch) : bool :=
@@ -73,7 +75,7 @@ Section O.
       | None => o
       | Some (b, pd) =>
         let o1 := mkOst (ocore o) pd (oquit o) (ostuck_n o) (ostuck_s o) (oleak_n o) (oleak_s o) (otrace o) in
-        if stopped (ocore o) then
+        if stopped (ocore o) || quitf (ocore o) then
           mkOst (ocore o) pd (oquit o) (ostuck_n o + batch_num b) (ostuck_s o + batch_size b)
                 (oleak_n o) (oleak_s o) (otrace o)
         else core_step o1 (SEnq b)
@@ -87,7 +89,7 @@ Section O.
         else mkOst (ocore o) pd (oquit o) (ostuck_n o) (ostuck_s o)
                    (oleak_n o + batch_num b) (oleak_s o + batch_size b) (otrace o)
       end
-    | OQuit => mkOst (ocore o) (opend o) true (ostuck_n o) (ostuck_s o) (oleak_n o) (oleak_s o) (otrace o)
+    | OQuit => core_step o SQuit
     end.
 
   Definition ost0 (h0 : N) : ost := mkOst (pst0 h0) [] false 0 0 0 0 [].
